@@ -93,14 +93,851 @@ theorem JidOf.bind {cfg : Cfg} {u j : List Char} (h : JidOf cfg u j) (r : List C
 /-- a user name / domain without '/' is not cut by `jidToBareJid` -/
 theorem bareOf_eq_self (j : List Char) (h : '/' ∉ j) : bareOf j = j := by
   unfold bareOf
-  rw [List.takeWhile_eq_self_iff]
-  intro a ha
-  have : a ≠ '/' := fun e => h (e ▸ ha)
-  simpa using this
+  induction j with
+  | nil => rfl
+  | cons a t ih =>
+    have ha : a ≠ '/' := fun e => h (by simp [e])
+    have ht : '/' ∉ t := fun e => h (by simp [e])
+    have hb : (a != '/') = true := by simpa using ha
+    simp only [List.takeWhile, hb]
+    rw [ih ht]
 
 theorem Approved.mono {cfg : Cfg} {h1 h2 : List (Nat × Ev)} {c : Nat} {u : List Char}
     (hsub : ∀ x, x ∈ h1 → x ∈ h2) (h : Approved cfg h1 c u) : Approved cfg h2 c u := by
   obtain ⟨ev, hm, ha⟩ := h
   exact ⟨ev, hsub _ hm, ha⟩
+
+/-! ### shape of one connection step: quiet, or starting with an authentication record -/
+
+/-- connection-level outputs that presuppose an authenticated sender -/
+def GuardedC : COut → Prop
+  | .emit _ => True
+  | .bound => True
+  | .send (.bindResult _) => True
+  | .send (.sessionResult _) => True
+  | _ => False
+
+/-- harmless outputs: SASL / stream-level elements, close, ub -/
+def Benign : COut → Prop
+  | .send (.bindResult _) => False
+  | .send (.sessionResult _) => False
+  | .send _ => True
+  | .closed => True
+  | .ub => True
+  | _ => False
+
+/-- the step neither changes the jid nor emits anything but harmless outputs -/
+def Quiet (x : Conn) (r : CRes) : Prop := r.conn.jid = x.jid ∧ ∀ o ∈ r.outs, Benign o
+
+/-- the step starts by recording a successful authentication -/
+def AuthHead (r : CRes) : Prop := ∃ j tl, r.outs = .authed j :: tl ∧ ∀ o ∈ tl, Benign o ∨ o = .bound
+
+theorem quiet_idle (x : Conn) : Quiet x (idle x) := by simp [Quiet, idle]
+
+theorem quiet_disconnect (x c : Conn) (pre : List COut) (hj : c.jid = x.jid) (hpre : ∀ o ∈ pre, Benign o) :
+    Quiet x (disconnect c pre) := by
+  refine ⟨by simp [disconnect, hj], ?_⟩
+  intro o ho
+  simp only [disconnect, List.mem_append, List.mem_cons, List.not_mem_nil, or_false] at ho
+  rcases ho with h | rfl | rfl
+  · exact hpre o h
+  · trivial
+  · trivial
+
+theorem quiet_failClose (x c : Conn) (v2 : Bool) (cond : Cond) (hj : c.jid = x.jid) : Quiet x (failClose c v2 cond) := by
+  unfold failClose
+  apply quiet_disconnect
+  · cases v2 <;> simp [hj]
+  · intro o ho; simp at ho; subst ho; trivial
+
+theorem quiet_ubRes (x c : Conn) (hj : c.jid = x.jid) : Quiet x (ubRes c) := by
+  simp [Quiet, ubRes, hj, Benign]
+
+theorem dropPending_jid (cfg : Cfg) (c : Conn) : (dropPending cfg c).jid = c.jid := by
+  unfold dropPending; split <;> rfl
+
+theorem checkCredentials_jid (cfg : Cfg) (c : Conn) (s : Sasl) (p : Payload) : (checkCredentials cfg c s p).jid = c.jid := by
+  unfold checkCredentials
+  split
+  · rfl
+  · split <;> rfl
+  · rfl
+
+theorem quiet_openStream (cfg : Cfg) (x : Conn) (to : List Char) : Quiet x (openStream cfg x to) := by
+  unfold openStream
+  simp only []
+  split
+  · apply quiet_disconnect
+    · simp [dropPending_jid]
+    · intro o ho; simp at ho; rcases ho with rfl | rfl <;> trivial
+  · refine ⟨by simp [dropPending_jid], ?_⟩
+    intro o ho
+    simp only [List.mem_cons, List.not_mem_nil, or_false] at ho
+    rcases ho with rfl | rfl
+    · trivial
+    · unfold featuresOf; split <;> trivial
+
+theorem quiet_authStep (cfg : Cfg) (x : Conn) (v2 : Bool) (m : List Char) (p : Payload) (b : Bool) :
+    Quiet x (authStep cfg x v2 m p b) := by
+  unfold authStep
+  simp only []
+  split
+  · apply quiet_disconnect
+    · simp [dropPending_jid]
+    · intro o ho; simp at ho; subst ho; trivial
+  · split
+    · refine ⟨by simp [checkCredentials_jid, dropPending_jid], by simp⟩
+    · refine ⟨by simp [dropPending_jid], ?_⟩
+      intro o ho; simp at ho; subst ho; trivial
+    · apply quiet_failClose; simp [dropPending_jid]
+
+
+theorem authHead_authSuccess (fresh : List Char) (c : Conn) (j : List Char) (v2 : Bool) :
+    AuthHead (authSuccess fresh c j v2) := by
+  unfold authSuccess
+  simp only []
+  split
+  · unfold sasl2Authenticated
+    split
+    · exact ⟨j, _, rfl, by intro o ho; simp at ho; subst ho; exact Or.inl trivial⟩
+    · refine ⟨j, [_, _, _], rfl, ?_⟩
+      intro o ho
+      simp only [List.mem_cons, List.not_mem_nil, or_false] at ho
+      rcases ho with rfl | rfl | rfl
+      · exact Or.inl trivial
+      · exact Or.inr rfl
+      · left; unfold featuresOf; split <;> trivial
+    · refine ⟨j, [_, _], rfl, ?_⟩
+      intro o ho
+      simp only [List.mem_cons, List.not_mem_nil, or_false] at ho
+      rcases ho with rfl | rfl
+      · exact Or.inl trivial
+      · left; unfold featuresOf; split <;> trivial
+  · exact ⟨j, _, rfl, by intro o ho; simp at ho; subst ho; exact Or.inl trivial⟩
+
+theorem shape_responseStep (cfg : Cfg) (fresh : List Char) (x : Conn) (v2 : Bool) (p : Payload) :
+    Quiet x (responseStep cfg fresh x v2 p) ∨ AuthHead (responseStep cfg fresh x v2 p) := by
+  unfold responseStep
+  split
+  · left; apply quiet_disconnect _ _ _ rfl
+    intro o ho; simp at ho; subst ho; trivial
+  · simp only []
+    split
+    · left; exact ⟨by simp [checkCredentials_jid], by simp⟩
+    · right; exact authHead_authSuccess _ _ _ _
+    · left; apply quiet_failClose; rfl
+
+theorem shape_pwReply (cfg : Cfg) (fresh : List Char) (x c0 : Conn) (s : Sasl) (res : CheckRes) (hj : c0.jid = x.jid) :
+    Quiet x (pwReply cfg fresh c0 s res) ∨ AuthHead (pwReply cfg fresh c0 s res) := by
+  cases res
+  · right; exact authHead_authSuccess _ _ _ _
+  · left; exact quiet_failClose _ _ _ _ hj
+  · left; exact quiet_failClose _ _ _ _ hj
+
+theorem quiet_dgVerify (x c0 : Conn) (s : Sasl) (d : Option (List Char)) (u sec : List Char) (hj : c0.jid = x.jid) :
+    Quiet x (dgVerify c0 s d u sec) := by
+  unfold dgVerify
+  simp only []
+  split
+  · refine ⟨by simp [hj], ?_⟩
+    intro o ho; simp at ho; subst ho; trivial
+  · apply quiet_failClose; simp [hj]
+
+theorem quiet_dgReply (x c0 : Conn) (s : Sasl) (u sec : List Char) (res : DigRes) (hj : c0.jid = x.jid) :
+    Quiet x (dgReply c0 s u sec res) := by
+  cases res
+  · exact quiet_dgVerify _ _ _ _ _ _ hj
+  · exact quiet_dgVerify _ _ _ _ _ _ hj
+  · exact quiet_failClose _ _ _ _ hj
+
+theorem shape_deliverReply (cfg : Cfg) (fresh : List Char) (x : Conn) (i : Nat) :
+    Quiet x (deliverReply cfg fresh x i) ∨ AuthHead (deliverReply cfg fresh x i) := by
+  unfold deliverReply
+  split
+  · left; exact quiet_idle x
+  · simp only []
+    split
+    · left; exact quiet_ubRes _ _ rfl
+    · split
+      · exact shape_pwReply _ _ _ _ _ _ rfl
+      · left; exact quiet_dgReply _ _ _ _ _ _ rfl
+
+
+
+theorem benign_not_guarded {o : COut} (h : Benign o) : ¬ GuardedC o := by
+  cases o with
+  | send e => cases e <;> simp_all [Benign, GuardedC]
+  | _ => simp_all [Benign, GuardedC]
+
+theorem quiet_gate (x : Conn) (r : CRes) (h : Quiet x r) : Quiet x (gate x r) := by
+  unfold gate
+  split
+  · exact quiet_idle x
+  · split
+    · exact h
+    · exact ⟨rfl, by simp [idle]⟩
+
+theorem shape_gate (x : Conn) (r : CRes) (h : Quiet x r ∨ AuthHead r) : Quiet x (gate x r) ∨ AuthHead (gate x r) := by
+  unfold gate
+  split
+  · exact Or.inl (quiet_idle x)
+  · split
+    · exact h
+    · exact Or.inl ⟨rfl, by simp [idle]⟩
+
+theorem quiet_clientGate_preauth (cfg : Cfg) (x : Conn) (r : CRes) (hf : cfg.fixPreauth = true) (hj : x.jid = []) :
+    Quiet x (clientGate cfg x r) := by
+  simp only [clientGate, hf, hj, and_self, if_true]
+  apply quiet_disconnect _ _ _ rfl
+  intro o ho; simp at ho; subst ho; trivial
+
+/-- one step of a connection, when the pre-authentication safety condition holds: quiet, or it starts with an
+authentication record, or the jid was already set -/
+theorem shape_connStep (cfg : Cfg) (fresh : List Char) (x : Conn) (ev : Ev)
+    (hsafe : cfg.fixPreauth = true ∨ (isClientStanza ev = true → x.jid ≠ [])) :
+    Quiet x (connStep cfg fresh x ev) ∨ AuthHead (connStep cfg fresh x ev) ∨ x.jid ≠ [] := by
+  by_cases hj : x.jid = []
+  case neg => exact Or.inr (Or.inr hj)
+  have stanzaCase : ∀ r, isClientStanza ev = true → Quiet x (gate x (clientGate cfg x r)) := by
+    intro r hev
+    rcases hsafe with hf | hs
+    · exact quiet_gate _ _ (quiet_clientGate_preauth cfg x r hf hj)
+    · exact absurd hj (hs hev)
+  unfold connStep
+  split
+  · exact Or.inl (quiet_idle x)
+  · cases ev with
+    | deliver i =>
+      rcases shape_deliverReply cfg fresh x i with h | h
+      · exact Or.inl h
+      · exact Or.inr (Or.inl h)
+    | openStream to =>
+      simp only []
+      split
+      · exact Or.inl (quiet_idle x)
+      · exact Or.inl (quiet_openStream cfg x _)
+    | auth v2 m p b => exact Or.inl (quiet_gate _ _ (quiet_authStep cfg x v2 m p b))
+    | response v2 p =>
+      rcases shape_gate x _ (shape_responseStep cfg fresh x v2 p) with h | h
+      · exact Or.inl h
+      · exact Or.inr (Or.inl h)
+    | abort v2 =>
+      refine Or.inl (quiet_gate _ _ ?_)
+      split
+      · exact ⟨rfl, by intro o ho; simp at ho; subst ho; trivial⟩
+      · exact quiet_idle x
+    | closeStream => exact Or.inl (quiet_gate _ _ (quiet_disconnect _ _ _ rfl (by simp)))
+    | bind res => exact Or.inl (stanzaCase _ rfl)
+    | session => exact Or.inl (stanzaCase _ rfl)
+    | stanza st => exact Or.inl (stanzaCase _ rfl)
+
+
+
+theorem not_emit_of_quiet {x : Conn} {r : CRes} (h : Quiet x r) (st : Stanza) : COut.emit st ∉ r.outs :=
+  fun hm => (h.2 _ hm)
+
+theorem not_emit_of_authHead {r : CRes} (h : AuthHead r) (st : Stanza) : COut.emit st ∉ r.outs := by
+  obtain ⟨j, tl, ho, htl⟩ := h
+  intro hm
+  rw [ho] at hm
+  simp only [List.mem_cons] at hm
+  rcases hm with hm | hm
+  · cases hm
+  · rcases htl _ hm with hb | hb
+    · exact hb
+    · cases hb
+
+theorem not_emit_of_shape {x : Conn} {r : CRes} (h : Quiet x r ∨ AuthHead r) (st : Stanza) : COut.emit st ∉ r.outs := by
+  rcases h with h | h
+  · exact not_emit_of_quiet h st
+  · exact not_emit_of_authHead h st
+
+theorem gate_outs (x : Conn) (r : CRes) (o : COut) (h : o ∈ (gate x r).outs) : o ∈ r.outs ∧ gate x r = r := by
+  cases hs : x.stuck <;> cases ho : x.opened <;> simp [gate, hs, ho, idle] at h ⊢
+  exact h
+
+theorem clientGate_outs_emit (cfg : Cfg) (x : Conn) (r : CRes) (st : Stanza) (h : COut.emit st ∈ (clientGate cfg x r).outs) :
+    COut.emit st ∈ r.outs ∧ clientGate cfg x r = r := by
+  unfold clientGate at h ⊢
+  by_cases hc : cfg.fixPreauth = true ∧ x.jid = []
+  · simp [hc, disconnect] at h
+  · simp only [hc, if_false] at h ⊢
+    exact ⟨h, trivial⟩
+
+/-- **from stamping, locally**: whatever a connection hands to the server for routing carries its own jid
+(full or bare) as `from`, and that step does not change the connection -/
+theorem connStep_emit (cfg : Cfg) (fresh : List Char) (x : Conn) (ev : Ev) (st : Stanza)
+    (h : COut.emit st ∈ (connStep cfg fresh x ev).outs) :
+    (st.sender = x.jid ∨ st.sender = bareOf x.jid) ∧ (connStep cfg fresh x ev).conn = x := by
+  unfold connStep at h ⊢
+  split at h
+  · simp [idle] at h
+  · rename_i hc
+    have hc' : x.closed = false := by simpa using hc
+    simp only [hc', Bool.false_eq_true, if_false]
+    cases ev with
+    | deliver i => exact absurd h (not_emit_of_shape (shape_deliverReply cfg fresh x i) st)
+    | openStream to =>
+      simp only [] at h
+      split at h
+      · simp [idle] at h
+      · exact absurd h (not_emit_of_quiet (quiet_openStream cfg x to) st)
+    | auth v2 m p b => exact absurd (gate_outs _ _ _ h).1 (not_emit_of_quiet (quiet_authStep cfg x v2 m p b) st)
+    | response v2 p => exact absurd (gate_outs _ _ _ h).1 (not_emit_of_shape (shape_responseStep cfg fresh x v2 p) st)
+    | abort v2 =>
+      have h1 := (gate_outs _ _ _ h).1
+      split at h1
+      · simp at h1
+      · simp [idle] at h1
+    | closeStream =>
+      have h1 := (gate_outs _ _ _ h).1
+      simp [disconnect] at h1
+    | bind res =>
+      have h1 := (clientGate_outs_emit _ _ _ _ (gate_outs _ _ _ h).1).1
+      simp [bindStep] at h1
+    | session =>
+      have h1 := (clientGate_outs_emit _ _ _ _ (gate_outs _ _ _ h).1).1
+      simp at h1
+    | stanza st0 =>
+      have hg := gate_outs _ _ _ h
+      have hcg := clientGate_outs_emit _ _ _ _ hg.1
+      show (st.sender = x.jid ∨ st.sender = bareOf x.jid) ∧ (gate x (clientGate cfg x (clientStanza cfg x st0))).conn = x
+      rw [hg.2, hcg.2]
+      have h1 := hcg.1
+      unfold clientStanza at h1 ⊢
+      split at h1
+      · simp [idle] at h1
+      · rename_i hcond
+        simp only [hcond, if_false]
+        simp only [List.mem_cons, List.not_mem_nil, or_false] at h1
+        injection h1 with h1
+        subst h1
+        refine ⟨?_, trivial⟩
+        simp only [stampFrom]
+        by_cases hs : st0.sender = []
+        · simp only [hs, ne_eq, not_true_eq_false, if_false]
+          split
+          · split
+            · exact Or.inr rfl
+            · exact Or.inl rfl
+          · exact Or.inl rfl
+        · simp only [ne_eq, hs, not_false_eq_true, if_true]
+          simp only [ne_eq, hs, not_false_eq_true, true_and] at hcond
+          by_cases h1 : st0.sender = x.jid
+          · exact Or.inl h1
+          · by_cases h2 : st0.sender = bareOf x.jid
+            · exact Or.inr h2
+            · exact absurd ⟨h1, h2⟩ hcond
+
+
+
+/-! ### from connection outputs to server outputs -/
+
+theorem handleStanza_mem (cfg : Cfg) (s : Server) (src : Nat) (st : Stanza) (o : Out)
+    (h : o ∈ handleStanza cfg s src st) :
+    (∃ d, o = .deliver src d st) ∨ (∃ d f cond, o = .reply src d (.iqError st.id f st.sender cond)) := by
+  unfold handleStanza at h
+  split at h
+  · split at h
+    · split at h
+      · split at h
+        · simp only [List.mem_map] at h
+          obtain ⟨d, _, rfl⟩ := h
+          exact Or.inr ⟨d, _, _, rfl⟩
+        · simp at h
+      · simp at h
+    · simp at h
+  · split at h
+    · simp only [List.mem_map] at h
+      obtain ⟨d, _, rfl⟩ := h
+      exact Or.inl ⟨d, rfl⟩
+    · split at h
+      · split at h
+        · simp only [List.mem_map] at h
+          obtain ⟨d, _, rfl⟩ := h
+          exact Or.inr ⟨d, _, _, rfl⟩
+        · simp at h
+      · simp at h
+
+theorem unregister_mem (s : Server) (c : Nat) (o : Out) (h : o ∈ (unregister s c).2) :
+    o = .closed c ∨ o = .disconnected c (s.conns c).jid := by
+  unfold unregister at h
+  simp only [] at h
+  split at h
+  · simp at h; exact Or.inl h
+  · simp at h; exact h
+
+theorem register_mem (s : Server) (c : Nat) (o : Out) (h : o ∈ (register s c).2) :
+    o = .connected c (s.conns c).jid ∨ (∃ k, k ≠ c ∧ (o = .send k (.streamError .conflict) ∨ o = .send k .streamEnd ∨ o = .closed k ∨ ∃ j, o = .disconnected k j)) := by
+  unfold register at h
+  simp only [List.mem_append, List.mem_cons, List.not_mem_nil, or_false] at h
+  rcases h with h | h
+  · right
+    split at h
+    · rename_i o' _
+      split at h
+      · rename_i hk
+        simp only [List.mem_append, List.mem_cons, List.not_mem_nil, or_false] at h
+        refine ⟨o', hk.1, ?_⟩
+        rcases h with (h | h) | h
+        · exact Or.inl h
+        · exact Or.inr (Or.inl h)
+        · rcases unregister_mem _ _ _ h with h | h
+          · exact Or.inr (Or.inr (Or.inl h))
+          · exact Or.inr (Or.inr (Or.inr ⟨_, h⟩))
+      · simp at h
+    · simp at h
+  · exact Or.inl h
+
+theorem applyOut_needsAuth (cfg : Cfg) (s : Server) (c0 : Nat) (co : COut) (o : Out) (c : Nat)
+    (h : o ∈ (applyOut cfg s c0 co).2) (hn : NeedsAuth c o) : c = c0 ∧ GuardedC co := by
+  cases co with
+  | send e =>
+    simp only [applyOut, List.mem_cons, List.not_mem_nil, or_false] at h
+    subst h
+    cases e <;> simp_all [NeedsAuth, GuardedC]
+  | emit st =>
+    simp only [applyOut, List.mem_cons] at h
+    rcases h with rfl | h
+    · exact ⟨hn.symm, trivial⟩
+    · rcases handleStanza_mem _ _ _ _ _ h with ⟨d, rfl⟩ | ⟨d, f, cond, rfl⟩
+      · exact ⟨hn.symm, trivial⟩
+      · exact ⟨hn.symm, trivial⟩
+  | bound =>
+    simp only [applyOut] at h
+    rcases register_mem _ _ _ h with rfl | ⟨k, _, rfl | rfl | rfl | ⟨j, rfl⟩⟩
+    · exact ⟨hn.symm, trivial⟩
+    all_goals simp [NeedsAuth] at hn
+  | closed =>
+    simp only [applyOut] at h
+    rcases unregister_mem _ _ _ h with rfl | rfl <;> simp [NeedsAuth] at hn
+  | authed j =>
+    simp only [applyOut, List.mem_cons, List.not_mem_nil, or_false] at h
+    subst h; simp [NeedsAuth] at hn
+  | ub =>
+    simp only [applyOut, List.mem_cons, List.not_mem_nil, or_false] at h
+    subst h; simp [NeedsAuth] at hn
+
+theorem applyOuts_needsAuth (cfg : Cfg) (c0 : Nat) (o : Out) (c : Nat) (hn : NeedsAuth c o) :
+    ∀ (couts : List COut) (s : Server), o ∈ (applyOuts cfg s c0 couts).2 → c = c0 ∧ ∃ g ∈ couts, GuardedC g := by
+  intro couts
+  induction couts with
+  | nil => intro s h; simp [applyOuts] at h
+  | cons co rest ih =>
+    intro s h
+    simp only [applyOuts, List.mem_append] at h
+    rcases h with h | h
+    · have := applyOut_needsAuth cfg s c0 co o c h hn
+      exact ⟨this.1, co, by simp, this.2⟩
+    · obtain ⟨h1, g, hg, hgg⟩ := ih _ h
+      exact ⟨h1, g, by simp [hg], hgg⟩
+
+/-- an authentication record at the head of a connection's outputs is the head of the server's outputs -/
+theorem applyOuts_authed_head (cfg : Cfg) (s : Server) (c0 : Nat) (j : List Char) (tl : List COut) :
+    ∃ rest, (applyOuts cfg s c0 (.authed j :: tl)).2 = .authed c0 j :: rest := by
+  simp [applyOuts, applyOut]
+
+
+
+/-- the only thing the server does to a connection other than the acting one: close it (conflict) -/
+def Closes (a b : Conn) : Prop := b = a ∨ b = { a with closed := true, pending := [] }
+
+theorem Closes.refl (a : Conn) : Closes a a := Or.inl rfl
+
+theorem Closes.trans {a b c : Conn} (h1 : Closes a b) (h2 : Closes b c) : Closes a c := by
+  rcases h1 with rfl | rfl
+  · exact h2
+  · rcases h2 with rfl | rfl
+    · exact Or.inr rfl
+    · exact Or.inr rfl
+
+theorem Closes.jid {a b : Conn} (h : Closes a b) : b.jid = a.jid := by
+  rcases h with rfl | rfl <;> rfl
+
+theorem unregister_conns (s : Server) (c : Nat) : (unregister s c).1.conns = s.conns := by
+  unfold unregister
+  simp only []
+  split <;> rfl
+
+theorem register_conns (s : Server) (c i : Nat) :
+    Closes (s.conns i) ((register s c).1.conns i) ∧ (i = c → (register s c).1.conns i = s.conns i) := by
+  unfold register
+  simp only []
+  split
+  · rename_i o _
+    split
+    · rename_i hk
+      simp only [unregister_conns, setConn]
+      by_cases hi : i = o
+      · subst hi
+        simp only [if_true]
+        exact ⟨Or.inr rfl, fun h => absurd h hk.1⟩
+      · simp only [hi, if_false]
+        exact ⟨Or.inl rfl, fun _ => trivial⟩
+    · exact ⟨Or.inl rfl, fun _ => rfl⟩
+  · exact ⟨Or.inl rfl, fun _ => rfl⟩
+
+theorem applyOut_conns (cfg : Cfg) (s : Server) (c0 : Nat) (co : COut) (i : Nat) :
+    Closes (s.conns i) ((applyOut cfg s c0 co).1.conns i) ∧ (i = c0 → (applyOut cfg s c0 co).1.conns i = s.conns i) := by
+  cases co with
+  | bound => exact register_conns s c0 i
+  | closed => simp only [applyOut, unregister_conns]; exact ⟨Or.inl rfl, fun _ => trivial⟩
+  | _ => exact ⟨Or.inl rfl, fun _ => rfl⟩
+
+theorem applyOuts_conns (cfg : Cfg) (c0 : Nat) (i : Nat) : ∀ (couts : List COut) (s : Server),
+    Closes (s.conns i) ((applyOuts cfg s c0 couts).1.conns i) ∧ (i = c0 → (applyOuts cfg s c0 couts).1.conns i = s.conns i) := by
+  intro couts
+  induction couts with
+  | nil => intro s; exact ⟨Or.inl rfl, fun _ => rfl⟩
+  | cons co rest ih =>
+    intro s
+    simp only [applyOuts]
+    have h1 := applyOut_conns cfg s c0 co i
+    have h2 := ih (applyOut cfg s c0 co).1
+    exact ⟨h1.1.trans h2.1, fun h => by rw [h2.2 h, h1.2 h]⟩
+
+/-- after a step, the acting connection is exactly what `connStep` made of it; any other one is unchanged or
+has been closed -/
+theorem step_conns (cfg : Cfg) (s : Server) (op : Nat × Ev) (i : Nat) :
+    (i = op.1 → (step cfg s op).1.conns i = (connStep cfg (freshRes s.gen) (s.conns op.1) op.2).conn) ∧
+    (i ≠ op.1 → Closes (s.conns i) ((step cfg s op).1.conns i)) := by
+  unfold step
+  simp only []
+  constructor
+  · intro h
+    rw [(applyOuts_conns cfg op.1 i _ _).2 h]
+    simp [setConn, h]
+  · intro h
+    have := (applyOuts_conns cfg op.1 i (connStep cfg (freshRes s.gen) (s.conns op.1) op.2).outs
+      { setConn s op.1 (connStep cfg (freshRes s.gen) (s.conns op.1) op.2).conn with
+        gen := if (connStep cfg (freshRes s.gen) (s.conns op.1) op.2).used then s.gen + 1 else s.gen }).1
+    simpa [setConn, h] using this
+
+
+
+/-! ### "authenticated before": every connection with a jid has an authentication record in the log -/
+
+def AuthLog (s : Server) (L : List Out) : Prop := ∀ c, (s.conns c).jid ≠ [] → ∃ j, Out.authed c j ∈ L
+
+theorem authLog_init : AuthLog init [] := by
+  intro c h; simp [init] at h
+
+theorem step_outs_authHead (cfg : Cfg) (s : Server) (op : Nat × Ev)
+    (h : AuthHead (connStep cfg (freshRes s.gen) (s.conns op.1) op.2)) :
+    ∃ j rest, (step cfg s op).2 = .authed op.1 j :: rest := by
+  obtain ⟨j, tl, ho, _⟩ := h
+  unfold step
+  simp only [ho]
+  obtain ⟨rest, hr⟩ := applyOuts_authed_head cfg
+    { setConn s op.1 (connStep cfg (freshRes s.gen) (s.conns op.1) op.2).conn with
+      gen := if (connStep cfg (freshRes s.gen) (s.conns op.1) op.2).used then s.gen + 1 else s.gen } op.1 j tl
+  exact ⟨j, rest, hr⟩
+
+theorem authLog_step (cfg : Cfg) (s : Server) (L : List Out) (op : Nat × Ev)
+    (hinv : AuthLog s L) (hsafe : PreauthSafe cfg s op) : AuthLog (step cfg s op).1 (L ++ (step cfg s op).2) := by
+  intro c hj
+  have hc := step_conns cfg s op c
+  by_cases hcop : c = op.1
+  · rw [hc.1 hcop] at hj
+    rcases shape_connStep cfg (freshRes s.gen) (s.conns op.1) op.2 hsafe with hq | ha | hx
+    · rw [hq.1] at hj
+      obtain ⟨j, hm⟩ := hinv op.1 hj
+      exact ⟨j, by rw [hcop]; simp [hm]⟩
+    · obtain ⟨j, rest, hr⟩ := step_outs_authHead cfg s op ha
+      exact ⟨j, by rw [hcop, hr]; simp⟩
+    · obtain ⟨j, hm⟩ := hinv op.1 hx
+      exact ⟨j, by rw [hcop]; simp [hm]⟩
+  · rw [(hc.2 hcop).jid] at hj
+    obtain ⟨j, hm⟩ := hinv c hj
+    exact ⟨j, by simp [hm]⟩
+
+/-- within one step: an output that presupposes authentication is preceded, in the log so far plus the
+earlier outputs of this very step, by an authentication record of that connection -/
+theorem step_needsAuth (cfg : Cfg) (s : Server) (L : List Out) (op : Nat × Ev)
+    (hinv : AuthLog s L) (hsafe : PreauthSafe cfg s op)
+    (pre : List Out) (x : Out) (post : List Out) (c : Nat)
+    (hsplit : (step cfg s op).2 = pre ++ x :: post) (hn : NeedsAuth c x) : ∃ j, Out.authed c j ∈ L ++ pre := by
+  have hx : x ∈ (step cfg s op).2 := by rw [hsplit]; simp
+  have hx' := hx
+  unfold step at hx'
+  obtain ⟨hc, g, hg, hgg⟩ := applyOuts_needsAuth cfg op.1 x c hn _ _ hx'
+  rcases shape_connStep cfg (freshRes s.gen) (s.conns op.1) op.2 hsafe with hq | ha | hj
+  · exact absurd hgg (benign_not_guarded (hq.2 g hg))
+  · obtain ⟨j, rest, hr⟩ := step_outs_authHead cfg s op ha
+    rw [hr] at hsplit
+    cases pre with
+    | nil =>
+      simp only [List.nil_append, List.cons.injEq] at hsplit
+      rw [← hsplit.1] at hn
+      simp [NeedsAuth] at hn
+    | cons p pre' =>
+      simp only [List.cons_append, List.cons.injEq] at hsplit
+      exact ⟨j, by rw [hc, ← hsplit.1]; simp⟩
+  · obtain ⟨j, hm⟩ := hinv op.1 hj
+    exact ⟨j, by rw [hc]; simp [hm]⟩
+
+theorem run_needsAuth (cfg : Cfg) : ∀ (ops : List (Nat × Ev)) (s : Server) (L : List Out),
+    AuthLog s L → Along cfg (PreauthSafe cfg) s ops →
+    ∀ (pre : List Out) (x : Out) (post : List Out) (c : Nat),
+      (run cfg s ops).2 = pre ++ x :: post → NeedsAuth c x → ∃ j, Out.authed c j ∈ L ++ pre := by
+  intro ops
+  induction ops with
+  | nil => intro s L _ _ pre x post c h; simp [run] at h
+  | cons op ops ih =>
+    intro s L hinv hal pre x post c hsplit hn
+    simp only [run] at hsplit
+    have hinv' := authLog_step cfg s L op hinv hal.1
+    rcases List.append_eq_append_iff.mp hsplit with ⟨as, hpre, hrest⟩ | ⟨bs, hstep, hrest⟩
+    · obtain ⟨j, hm⟩ := ih _ _ hinv' hal.2 as x post c hrest hn
+      exact ⟨j, by rw [hpre]; simpa [List.append_assoc] using hm⟩
+    · cases bs with
+      | nil =>
+        simp only [List.nil_append] at hrest
+        simp only [List.append_nil] at hstep
+        obtain ⟨j, hm⟩ := ih _ _ hinv' hal.2 [] x post c hrest.symm hn
+        exact ⟨j, by rw [← hstep]; simpa using hm⟩
+      | cons b bs' =>
+        simp only [List.cons_append, List.cons.injEq] at hrest
+        rw [← hrest.1] at hstep
+        exact step_needsAuth cfg s L op hinv hal.1 pre x bs' c hstep hn
+
+
+
+/-! ### who a connection is taken for: the invariant behind `auth_only_if_checker_approved`
+
+`A u`  = "this connection has presented a credential for `u` that the checker approves" (so far),
+`H p`  = "this connection has sent the SASL payload `p`" (so far). -/
+
+structure SaslOk (A : List Char → Prop) (s : Sasl) : Prop where
+  /-- a DIGEST-MD5 object waiting for the final empty response has verified its user -/
+  step2 : s.mech = .digest → s.step = 2 → A s.user
+  /-- before that it holds no digest (every failed verification closes the connection) -/
+  step1 : s.mech = .digest → s.step ≤ 1 → s.digest = none
+  /-- DIGEST-MD5 / ANONYMOUS objects have answered their `<auth/>` -/
+  pos : s.mech ≠ .plain → 1 ≤ s.step
+
+structure Live (cfg : Cfg) (A : List Char → Prop) (H : Payload → Prop) (x : Conn) : Prop where
+  /-- an outstanding password reply belongs to the current PLAIN object and is the checker's verdict on
+  exactly the user and password that object holds -/
+  pw_ok : ∀ res, Pending.pw res ∈ x.pending →
+    ∃ s, x.sasl = some s ∧ s.mech = .plain ∧ s.step = 1 ∧ res = cfg.check s.user s.pass ∧ H (.creds s.user s.pass)
+  /-- an outstanding digest reply is the checker's digest for the user named in the raw response it carries -/
+  dg_ok : ∀ res u sec, Pending.dg res u sec ∈ x.pending → res = cfg.digestOf u ∧ ∃ q, H (.dresp u sec q)
+  sasl_ok : ∀ s, x.sasl = some s → SaslOk A s
+
+structure ConnInv (cfg : Cfg) (A : List Char → Prop) (H : Payload → Prop) (x : Conn) : Prop where
+  jid_ok : x.jid ≠ [] → ∃ u, A u ∧ JidOf cfg u x.jid
+  live : x.closed = false → Live cfg A H x
+
+theorem ConnInv.mono {cfg : Cfg} {A A' : List Char → Prop} {H H' : Payload → Prop} {x : Conn}
+    (hA : ∀ u, A u → A' u) (hH : ∀ p, H p → H' p) (h : ConnInv cfg A H x) : ConnInv cfg A' H' x where
+  jid_ok := fun hj => let ⟨u, hu, hjid⟩ := h.jid_ok hj; ⟨u, hA u hu, hjid⟩
+  live := fun hc =>
+    let l := h.live hc
+    { pw_ok := fun res hm => let ⟨s, h1, h2, h3, h4, h5⟩ := l.pw_ok res hm; ⟨s, h1, h2, h3, h4, hH _ h5⟩
+      dg_ok := fun res u sec hm => let ⟨h1, q, h2⟩ := l.dg_ok res u sec hm; ⟨h1, q, hH _ h2⟩
+      sasl_ok := fun s hs =>
+        let k := l.sasl_ok s hs
+        { step2 := fun a b => hA _ (k.step2 a b), step1 := k.step1, pos := k.pos } }
+
+/-- a closed connection only has to keep an approved jid -/
+theorem ConnInv.of_closed {cfg : Cfg} {A : List Char → Prop} {H : Payload → Prop} {y : Conn}
+    (hc : y.closed = true) (hj : y.jid ≠ [] → ∃ u, A u ∧ JidOf cfg u y.jid) : ConnInv cfg A H y where
+  jid_ok := hj
+  live := fun h => by rw [hc] at h; cases h
+
+/-- fields the invariant does not look at may change freely -/
+theorem ConnInv.congr {cfg : Cfg} {A : List Char → Prop} {H : Payload → Prop} {x y : Conn}
+    (h : ConnInv cfg A H x) (hj : y.jid = x.jid) (hp : ∀ e, e ∈ y.pending → e ∈ x.pending) (hs : y.sasl = x.sasl)
+    (hc : y.closed = x.closed) : ConnInv cfg A H y where
+  jid_ok := by rw [hj]; exact h.jid_ok
+  live := fun hcl =>
+    let l := h.live (by rw [← hc]; exact hcl)
+    { pw_ok := fun res hm => by rw [hs]; exact l.pw_ok res (hp _ hm)
+      dg_ok := fun res u sec hm => l.dg_ok res u sec (hp _ hm)
+      sasl_ok := fun s hsm => l.sasl_ok s (by rw [← hs]; exact hsm) }
+
+theorem inv_disconnect {cfg : Cfg} {A : List Char → Prop} {H : Payload → Prop} (c : Conn) (pre : List COut)
+    (hj : c.jid ≠ [] → ∃ u, A u ∧ JidOf cfg u c.jid) : ConnInv cfg A H (disconnect c pre).conn :=
+  ConnInv.of_closed rfl hj
+
+theorem inv_failClose {cfg : Cfg} {A : List Char → Prop} {H : Payload → Prop} (c : Conn) (v2 : Bool) (cond : Cond)
+    (hj : c.jid ≠ [] → ∃ u, A u ∧ JidOf cfg u c.jid) : ConnInv cfg A H (failClose c v2 cond).conn := by
+  unfold failClose
+  apply inv_disconnect
+  cases v2 <;> exact hj
+
+theorem inv_ubRes {cfg : Cfg} {A : List Char → Prop} {H : Payload → Prop} (c : Conn)
+    (hj : c.jid ≠ [] → ∃ u, A u ∧ JidOf cfg u c.jid) : ConnInv cfg A H (ubRes c).conn :=
+  ConnInv.of_closed rfl hj
+
+theorem saslOk_plain {A : List Char → Prop} (s : Sasl) (h : s.mech = .plain) : SaslOk A s where
+  step2 := fun hd => by rw [h] at hd; cases hd
+  step1 := fun hd => by rw [h] at hd; cases hd
+  pos := fun hn => absurd h hn
+
+theorem dropPending_pending (cfg : Cfg) (x y : Conn) (hy : y.pending = x.pending)
+    (hrep : cfg.fixReply = true ∨ x.pending = []) : (dropPending cfg y).pending = [] := by
+  unfold dropPending
+  rcases hrep with h | h
+  · simp [h]
+  · split
+    · rfl
+    · rw [hy, h]
+
+theorem dropPending_fields (cfg : Cfg) (y : Conn) :
+    (dropPending cfg y).jid = y.jid ∧ (dropPending cfg y).sasl = y.sasl ∧ (dropPending cfg y).closed = y.closed := by
+  unfold dropPending; split <;> exact ⟨rfl, rfl, rfl⟩
+
+
+
+section handlers
+variable {cfg : Cfg} {A : List Char → Prop} {H : Payload → Prop}
+
+/-- a connection with nothing outstanding only needs an approved jid and a sound SASL object -/
+theorem ConnInv.of_no_pending {y : Conn} (hp : y.pending = [])
+    (hj : y.jid ≠ [] → ∃ u, A u ∧ JidOf cfg u y.jid) (hs : ∀ s, y.sasl = some s → SaslOk A s) : ConnInv cfg A H y where
+  jid_ok := hj
+  live := fun _ =>
+    { pw_ok := fun res hm => by rw [hp] at hm; cases hm
+      dg_ok := fun res u sec hm => by rw [hp] at hm; cases hm
+      sasl_ok := hs }
+
+theorem inv_openStream (x : Conn) (to : List Char) (h : ConnInv cfg A H x)
+    (hrep : cfg.fixReply = true ∨ x.pending = []) : ConnInv cfg A H (openStream cfg x to).conn := by
+  unfold openStream
+  simp only []
+  have hf := dropPending_fields cfg { x with opened := true, sasl := none }
+  have hp := dropPending_pending cfg x { x with opened := true, sasl := none } rfl hrep
+  split
+  · apply inv_disconnect; rw [hf.1]; exact h.jid_ok
+  · apply ConnInv.of_no_pending hp
+    · rw [hf.1]; exact h.jid_ok
+    · intro s hs; rw [hf.2.1] at hs; cases hs
+
+/-- `<auth/>`: a fresh SASL object answers its first input -/
+theorem fresh_respond (m : Mech) (p : Payload) :
+    (((Sasl.respond { mech := m } p).2 = .inputNeeded →
+        m = .plain ∧ ∃ u pw, p = .creds u pw ∧ (Sasl.respond { mech := m } p).1 = { mech := .plain, user := u, pass := pw, step := 1 }) ∧
+     (∀ ch, (Sasl.respond { mech := m } p).2 = .challenge ch → SaslOk A (Sasl.respond { mech := m } p).1)) := by
+  cases m
+  · cases p <;> simp [Sasl.respond, respondPlain, saslOk_plain]
+  · refine ⟨by simp [Sasl.respond, respondDigest], ?_⟩
+    intro ch _
+    simp only [Sasl.respond, respondDigest, if_true]
+    exact { step2 := by simp, step1 := by simp, pos := by simp }
+  · simp [Sasl.respond, respondAnon]
+
+theorem inv_authStep (x : Conn) (v2 : Bool) (m : List Char) (p : Payload) (b : Bool) (h : ConnInv cfg A H x)
+    (hrep : cfg.fixReply = true ∨ x.pending = []) (hev : H p) : ConnInv cfg A H (authStep cfg x v2 m p b).conn := by
+  unfold authStep
+  simp only []
+  have hf := dropPending_fields cfg { x with v2 := v2, s2req := if v2 then some b else none }
+  have hp := dropPending_pending cfg x { x with v2 := v2, s2req := if v2 then some b else none } rfl hrep
+  generalize dropPending cfg { x with v2 := v2, s2req := if v2 then some b else none } = c0 at *
+  have hjid : c0.jid ≠ [] → ∃ u, A u ∧ JidOf cfg u c0.jid := by rw [hf.1]; exact h.jid_ok
+  split
+  · exact inv_disconnect _ _ hjid
+  · rename_i mm _
+    have hfr := fresh_respond (A := A) mm p
+    split
+    · rename_i hr
+      obtain ⟨hm, u, pw, hpp, hs1⟩ := hfr.1 hr
+      rw [hs1]
+      refine ⟨hjid, fun _ => ⟨?_, ?_, ?_⟩⟩
+      · intro res hm
+        simp only [checkCredentials, hp, List.nil_append, List.mem_cons, List.not_mem_nil, or_false] at hm
+        injection hm with hm
+        exact ⟨_, rfl, rfl, rfl, hm, by rw [← hpp]; exact hev⟩
+      · intro res u' sec hm
+        simp [checkCredentials, hp] at hm
+      · intro s hs
+        simp only [checkCredentials] at hs
+        injection hs with hs; subst hs; exact saslOk_plain _ rfl
+    · rename_i ch hr
+      refine ConnInv.of_no_pending (y := { c0 with sasl := _ }) hp hjid ?_
+      intro s hs; injection hs with hs; subst hs
+      exact hfr.2 ch hr
+    · exact inv_failClose _ _ _ hjid
+
+end handlers
+
+
+/-! ### what `respond` can answer -/
+
+theorem respond_inputNeeded {s : Sasl} {p : Payload} (h : (s.respond p).2 = .inputNeeded) :
+    (s.mech = .plain ∧ s.step = 0 ∧ ∃ u pw, p = .creds u pw ∧ (s.respond p).1 = { s with user := u, pass := pw, step := 1 }) ∨
+    (s.mech = .digest ∧ s.step = 1 ∧ s.digest = none ∧ ∃ u sec, p = .dresp u sec true ∧ (s.respond p).1 = { s with user := u }) := by
+  obtain ⟨mech, step, user, pass, digest⟩ := s
+  cases mech
+  · rcases step with _ | n
+    · cases p <;> simp_all [Sasl.respond, respondPlain]
+    · simp [Sasl.respond, respondPlain] at h
+  · rcases step with _ | _ | _ | n
+    · simp [Sasl.respond, respondDigest] at h
+    · cases p with
+      | dresp u sec q =>
+        cases q
+        · simp [Sasl.respond, respondDigest] at h
+        · cases digest with
+          | none => simp [Sasl.respond, respondDigest]
+          | some d =>
+            simp only [Sasl.respond, respondDigest] at h
+            by_cases hs : sec = d <;> simp [hs] at h
+      | _ => simp [Sasl.respond, respondDigest] at h
+    · simp [Sasl.respond, respondDigest] at h
+    · simp [Sasl.respond, respondDigest] at h
+  · rcases step with _ | n <;> simp [Sasl.respond, respondAnon] at h
+
+theorem respond_succeeded {A : List Char → Prop} {s : Sasl} {p : Payload} (hok : SaslOk A s)
+    (h : (s.respond p).2 = .succeeded) : s.mech = .digest ∧ s.step = 2 ∧ (s.respond p).1 = { s with step := 3 } := by
+  have hpos := hok.pos
+  obtain ⟨mech, step, user, pass, digest⟩ := s
+  cases mech
+  · rcases step with _ | n
+    · cases p <;> simp [Sasl.respond, respondPlain] at h
+    · simp [Sasl.respond, respondPlain] at h
+  · rcases step with _ | _ | _ | n
+    · simp [Sasl.respond, respondDigest] at h
+    · cases p with
+      | dresp u sec q =>
+        cases q
+        · simp [Sasl.respond, respondDigest] at h
+        · cases digest with
+          | none => simp [Sasl.respond, respondDigest] at h
+          | some d =>
+            simp only [Sasl.respond, respondDigest] at h
+            by_cases hs : sec = d <;> simp [hs] at h
+      | _ => simp [Sasl.respond, respondDigest] at h
+    · simp [Sasl.respond, respondDigest]
+    · simp [Sasl.respond, respondDigest] at h
+  · rcases step with _ | n
+    · simp at hpos
+    · simp [Sasl.respond, respondAnon] at h
+
+/-- `onDigestReply`: the current object gets the checker's digest and sees the raw response again; it can only
+answer with a challenge if it is a DIGEST-MD5 object at step 1 and the response was computed from that digest -/
+theorem respond_challenge_withDigest {A : List Char → Prop} {s : Sasl} {d : Option (List Char)} {u sec : List Char} {ch : Chal}
+    (hok : SaslOk A s)
+    (h : (Sasl.respond { s with digest := d } (.dresp u sec true)).2 = .challenge ch) :
+    s.mech = .digest ∧ d = some sec ∧
+      (Sasl.respond { s with digest := d } (.dresp u sec true)).1 = { s with digest := d, user := u, step := 2 } := by
+  have hpos := hok.pos
+  obtain ⟨mech, step, user, pass, digest⟩ := s
+  cases mech
+  · rcases step with _ | n <;> simp [Sasl.respond, respondPlain] at h
+  · rcases step with _ | _ | _ | n
+    · simp at hpos
+    · cases d with
+      | none => simp [Sasl.respond, respondDigest] at h
+      | some d' =>
+        simp only [Sasl.respond, respondDigest] at h ⊢
+        by_cases hs : sec = d'
+        · simp [hs]
+        · simp [hs] at h
+    · simp [Sasl.respond, respondDigest] at h
+    · simp [Sasl.respond, respondDigest] at h
+  · rcases step with _ | n <;> simp [Sasl.respond, respondAnon] at h
+
 
 end Qx.C16
